@@ -75,8 +75,10 @@ pub enum WPoints {
 pub enum RealMode {
     /// Simulated file system.
     Sim,
-    /// The real file system (validates the stub); legal behaviours only.
+    /// The real file system (validates the stub). With a `Full` fault the limit is a real RLIMIT_FSIZE.
     Plain,
+    /// The real device /dev/full: every write fails with ENOSPC. The file is never removed.
+    DevFull,
 }
 
 #[derive(Clone, Debug, Serialize, Deserialize)]
@@ -93,6 +95,9 @@ pub struct Writer {
     pub eintr: Vec<u64>,
     pub fault: Option<(FaultFamily, Kind, WPoints)>,
     pub real: RealMode,
+    /// Bytes of unrelated content already in the file when the writer is created (it must be overwritten completely).
+    #[serde(default)]
+    pub preexisting: usize,
 }
 
 enum W {
@@ -123,8 +128,9 @@ fn rand_vals(n: usize, salt: u64) -> Vec<u64> {
 }
 
 impl Writer {
+    /// A file-size limit on the real file system is a process-wide RLIMIT_FSIZE: run it in a child.
     pub fn needs_child(&self) -> bool {
-        false
+        self.real == RealMode::Plain && self.fault.is_some()
     }
 
     pub fn generate(rng: &mut Rng, faulty: bool, big: bool) -> Writer {
@@ -181,12 +187,14 @@ impl Writer {
             let fam = *rng.pick(&[FaultFamily::Full, FaultFamily::Full, FaultFamily::Full, FaultFamily::WriteOnce, FaultFamily::WriteFrom, FaultFamily::Open, FaultFamily::Seek]);
             Some((fam, *rng.pick(&WRITE_KINDS), WPoints::All))
         } else { None };
-        let real = if !faulty && rng.chance(1, 40) { RealMode::Plain } else { RealMode::Sim };
+        let kernel_fault = faulty && matches!(fault, Some((FaultFamily::Full, _, _))) && rng.chance(1, if big { 6 } else { 25 });
+        let real = if (!faulty && rng.chance(1, 40)) || kernel_fault { RealMode::Plain } else if faulty && rng.chance(1, 60) { RealMode::DevFull } else { RealMode::Sim };
         Writer {
             kind, width, buf_len, header, ops,
             chunk: if rng.chance(1, 4) { Chunk::Unbounded } else { Chunk::generate(rng) },
             eintr: crate::simio::gen_eintr(rng, 40),
             fault, real,
+            preexisting: if rng.chance(1, 5) { *rng.pick(&[1usize, 8, 24, 100, 4096, 100_000]) } else { 0 },
         }
     }
 
@@ -215,12 +223,27 @@ impl Writer {
         let mut tr = Trace { reported: Vec::new(), push_panicked: false, closed_ok: false, closes: 0, first_close_snapshot: None, flush_overflow: false, flush_exact: false, final_flush_empty: false, dropped_open: false, pushes: 0 };
         let session: Option<FsSession>;
         let path: PathBuf;
+        let mut _limit: Option<FsizeLimit> = None;
         match self.real {
-            RealMode::Sim => { session = Some(FsSession::start(plan, expected_len)); path = PathBuf::from("/sim/writer"); },
-            RealMode::Plain => { session = None; path = crate::scratch::file("writer"); },
+            RealMode::Sim => {
+                let s = FsSession::start(plan, expected_len);
+                path = PathBuf::from("/sim/writer");
+                if self.preexisting > 0 { s.put(&path, vec![0xD7; self.preexisting]); }
+                session = Some(s);
+            },
+            RealMode::Plain => {
+                session = None; path = crate::scratch::file("writer");
+                if self.preexisting > 0 { let _ = std::fs::write(&path, vec![0xD7u8; self.preexisting]); }
+                match plan.fault {
+                    None => {},
+                    Some(FsFault::Full(k, _)) => { _limit = Some(FsizeLimit::set(k)); stats.fault("F3-full (real kernel, RLIMIT_FSIZE)", 1); },
+                    Some(other) => return Err(v("harness", "writer", format!("fault {:?} cannot be injected into the real file system", other))),
+                }
+            },
+            RealMode::DevFull => { session = None; path = PathBuf::from("/dev/full"); stats.fault("F3-full (real kernel, /dev/full)", 1); },
         }
         let read_file = |session: &Option<FsSession>| -> Option<Vec<u8>> {
-            match session { Some(s) => s.file(&path), None => std::fs::read(&path).ok() }
+            match session { Some(s) => s.file(&path), None => if self.real == RealMode::DevFull { None } else { std::fs::read(&path).ok() } }
         };
         stats.evaluations += 1;
 
@@ -372,6 +395,15 @@ impl Writer {
             Ok(Err(e)) => return out.fail(Violation::new(prop, "harness", "model", e)),
             Err(p) => return out.fail(Violation::new(prop, "harness", "model", p)),
         };
+        if self.real == RealMode::DevFull {
+            // Every write fails: the writer must say so through one of its documented channels.
+            let (_, tr) = match self.execute(prop, self.plan_with(None), expected.len(), &mut out.stats) { Ok(x) => x, Err(viol) => return out.fail(viol) };
+            if tr.reported.is_empty() {
+                return out.fail(v("writer-devfull-silent", format!("writing to /dev/full: every call reported success ({} pushes, closes {})", tr.pushes, tr.closes)));
+            }
+            out.stats.probe("/dev/full: failure reported");
+            return out;
+        }
         if self.fault.is_none() {
             // C12: legal behaviours only; everything must succeed and the file must be exact.
             let (file, tr) = match self.execute(prop, self.plan_with(None), expected.len(), &mut out.stats) { Ok(x) => x, Err(viol) => return out.fail(viol) };
@@ -397,6 +429,7 @@ impl Writer {
             out.stats.probe_if(self.buf_len == Some(0), "buffer size 0");
             out.stats.probe_if(!self.header.is_empty(), "parent header (close_with_header)");
             out.stats.probe_if(self.real == RealMode::Plain, "real file system cross-check");
+            out.stats.probe_if(self.preexisting > expected.len(), "longer file already present");
             return out;
         }
 
@@ -423,7 +456,7 @@ impl Writer {
         let expected = match catch(|| self.expected()) { Ok(Ok(x)) => x.0, _ => return Vec::new() };
         let faults = match self.fault_points(prop, expected.len()) { Ok(f) => f, Err(_) => return Vec::new() };
         faults.into_iter().map(|f| {
-            let k = match f { FsFault::Full(k, _) | FsFault::Open(k, _) | FsFault::Seek(k, _) | FsFault::WriteOnce(k, _) | FsFault::WriteFrom(k, _) => k };
+            let k = match f { FsFault::Full(k, _) | FsFault::Open(k, _) | FsFault::Seek(k, _) | FsFault::WriteOnce(k, _) | FsFault::WriteFrom(k, _) | FsFault::ReadAt(k, _) => k };
             let mut one = self.clone();
             one.fault = Some((fam, kind, WPoints::One(k)));
             one
@@ -454,8 +487,34 @@ impl Writer {
         if self.kind == WKind::Raw && !self.header.is_empty() { let mut s = self.clone(); s.header.clear(); out.push(s); }
         if let Some(b) = self.buf_len { if b > 64 { let mut s = self.clone(); s.buf_len = Some(64); out.push(s); let mut s = self.clone(); s.buf_len = Some(b / 2); out.push(s); } }
         if self.real != RealMode::Sim { let mut s = self.clone(); s.real = RealMode::Sim; out.push(s); }
+        if self.preexisting > 0 { let mut s = self.clone(); s.preexisting = 0; out.push(s); }
         if let Some((fam, kind, WPoints::One(k))) = &self.fault { for kk in [0u64, k / 2, k.saturating_sub(8), k.saturating_sub(1)] { if kk < *k { let mut s = self.clone(); s.fault = Some((*fam, *kind, WPoints::One(kk))); out.push(s); } } }
         out
+    }
+}
+
+/// Lowers the soft RLIMIT_FSIZE of this process (SIGXFSZ ignored, so that writes fail with EFBIG
+/// instead of killing the process); restores it when dropped.
+struct FsizeLimit {
+    old: libc::rlimit,
+}
+
+impl FsizeLimit {
+    fn set(limit: u64) -> FsizeLimit {
+        unsafe {
+            libc::signal(libc::SIGXFSZ, libc::SIG_IGN);
+            let mut old = libc::rlimit { rlim_cur: 0, rlim_max: 0 };
+            libc::getrlimit(libc::RLIMIT_FSIZE, &mut old);
+            let new = libc::rlimit { rlim_cur: (limit as libc::rlim_t).min(old.rlim_max), rlim_max: old.rlim_max };
+            libc::setrlimit(libc::RLIMIT_FSIZE, &new);
+            FsizeLimit { old }
+        }
+    }
+}
+
+impl Drop for FsizeLimit {
+    fn drop(&mut self) {
+        unsafe { libc::setrlimit(libc::RLIMIT_FSIZE, &self.old); }
     }
 }
 
